@@ -1,2 +1,3 @@
 import Generated.Tables
 import Generated.Defaults
+import Generated.KeyDefaults
